@@ -60,8 +60,24 @@ def replay_row(row):
         b = IOD('dev', world=wb, who='b')
         sh.a = a
         # every second history hands the member ports over as a one-shot iterable
-        port = mp.MultiPort([a, b]) if sum(len(x) for x in scripts) % 2 else mp.MultiPort(p for p in (a, b))
+        # every third history asks for (port, message) pairs: the port named must be the member
+        # the message arrived on
+        yp = (sum(len(x) for x in scripts) + 2 * len(hist) + sum(len(h['op']) for h in hist)) % 3 == 0
+        kw = {'yield_ports': True} if yp else {}
+        port = mp.MultiPort([a, b], **kw) if sum(len(x) for x in scripts) % 2 else mp.MultiPort((p for p in (a, b)), **kw)
         sent = []
+        wrong = []
+
+        def aid(r):
+            if not yp:
+                return c11.arrival_id(r)
+            if not (isinstance(r, tuple) and len(r) == 2 and (r[0] is a or r[0] is b)):
+                wrong.append('with yield_ports=True %s came out' % core.srepr(r))
+                return -1
+            i = c11.arrival_id(r[1])
+            if (r[0] is b) != (i >= 51):
+                wrong.append('message %d came out with member %s' % (i, 'b' if r[0] is b else 'a'))
+            return i
         for n, h in enumerate(hist):
             op, exp = h['op'], h['r']
             sh.afirst = h['afirst']
@@ -77,14 +93,14 @@ def replay_row(row):
                     msg.value = (msg.value + 1) % 128
                 elif op == 'receive':
                     r = port.receive()
-                    got_k, got_v = ('none', []) if r is None else ('msg', [c11.arrival_id(r)])
+                    got_k, got_v = ('none', []) if r is None else ('msg', [aid(r)])
                 elif op == 'poll':
                     r = port.poll()
-                    got_k, got_v = ('none', []) if r is None else ('msg', [c11.arrival_id(r)])
+                    got_k, got_v = ('none', []) if r is None else ('msg', [aid(r)])
                 elif op == 'iterate':
-                    got_k, got_v = 'list', [c11.arrival_id(r) for r in port]
+                    got_k, got_v = 'list', [aid(r) for r in port]
                 elif op == 'iter_pending':
-                    got_k, got_v = 'list', [c11.arrival_id(r) for r in port.iter_pending()]
+                    got_k, got_v = 'list', [aid(r) for r in port.iter_pending()]
                 elif op == 'close':
                     port.close()
                     got_k = 'ok'
@@ -92,6 +108,8 @@ def replay_row(row):
                 return 'hang/' + op, 'step %d: %s did not return within 60 sleeps (expected %r)' % (n, op, exp)
             except Exception as e:
                 got_k, got_v = type(e).__name__, []
+            if wrong:
+                return 'yield-ports/' + op, 'step %d: %s' % (n, wrong[0])
             ds, dp = sleeps[0] - s0, wa.polls + wb.polls - p0
             ek = exp['k']
             if ek == 'raise':
@@ -108,7 +126,7 @@ def replay_row(row):
                     n, op, dp, h['polls'])
         if bool(port.closed) != fclosed:
             return 'closed-flag', 'closed=%r expected %r' % (port.closed, fclosed)
-        rq = [c11.arrival_id(m) for m in list(port._messages)]
+        rq = [aid(m) for m in list(port._messages)]
         if rq != fq:
             return 'final-queue', 'queue %r expected %r' % (rq, fq)
         # every member saw a copy of every message sent, in order
